@@ -56,7 +56,7 @@ theorem collect_eq_declared (T : Name) (blocks : List (List VSpec))
     rw [collectBlock_eq_declaredBlock T b (h b (by simp)) none none (Or.inl rfl),
       ih (fun b' hb' => h b' (by simp [hb']))]
 
-theorem specGrammar_of_specOK {T : Name} {k : Kind} {s : VSpec} (h : specOK T k s = true) : specGrammar T s := by
+theorem specGrammar_of_specOK {T : Name} {s : VSpec} (h : specOK T s = true) : specGrammar T s := by
   intro ⟨h1, h2, h3⟩
   simp [specOK, h1, h2, h3] at h
 
@@ -66,9 +66,9 @@ theorem grammar_of_grammarOK {i : Input} (h : grammarOK i = true) :
   simp only [grammarOK, Bool.and_eq_true, List.all_eq_true] at h
   exact specGrammar_of_specOK (h.2 b hb s hs)
 
-theorem bits_of_grammarOK {i : Input} (h : grammarOK i = true) : 0 < i.kind.bits := by
+theorem bits_of_grammarOK {i : Input} (h : grammarOK i = true) : 0 < i.kind.bits ∧ i.kind.bits ≤ 64 := by
   simp only [grammarOK, Bool.and_eq_true, decide_eq_true_eq] at h
-  exact h.1.2
+  exact ⟨h.1.1.2, h.1.2⟩
 
 /-! ## insertion sort -/
 
@@ -140,31 +140,49 @@ theorem sortBy_congr (k1 k2 : Const → Int) (l : List Const)
     have hdr : d ∈ r := (sortBy_perm k2 r).mem_iff.mp hd
     exact h d (by simp [hdr]) c (by simp)
 
-/-! ## the unsigned key on small values -/
+/-! ## the sort key and `valueof` on the values of the type -/
 
-theorem u64_small {v : Int} (h0 : 0 ≤ v) (h1 : v < 9223372036854775808) : (u64 v : Int) = v := by
-  unfold u64; omega
+theorem pow_le_63 {b : Nat} (h : b ≤ 64) : (2 : Int) ^ (b - 1) ≤ 9223372036854775808 := by
+  have h1 : (2 : Nat) ^ (b - 1) ≤ 2 ^ 63 := Nat.pow_le_pow_right (by decide) (by omega)
+  have h2 : ((2 ^ (b - 1) : Nat) : Int) ≤ ((2 ^ 63 : Nat) : Int) := Int.ofNat_le.mpr h1
+  rw [Int.natCast_pow] at h2
+  have h3 : ((2 ^ 63 : Nat) : Int) = 9223372036854775808 := by decide
+  rw [h3] at h2
+  exact h2
 
-theorem printed_small {v : Int} (h0 : 0 ≤ v) (h1 : v < 9223372036854775808) : printed v = v := by
-  unfold printed toInt64 u64; omega
+theorem pow_le_64 {b : Nat} (h : b ≤ 64) : (2 : Int) ^ b ≤ 18446744073709551616 := by
+  have h1 : (2 : Nat) ^ b ≤ 2 ^ 64 := Nat.pow_le_pow_right (by decide) h
+  have h2 : ((2 ^ b : Nat) : Int) ≤ ((2 ^ 64 : Nat) : Int) := Int.ofNat_le.mpr h1
+  rw [Int.natCast_pow] at h2
+  have h3 : ((2 ^ 64 : Nat) : Int) = 18446744073709551616 := by decide
+  rw [h3] at h2
+  exact h2
 
-theorem printed_neg {v : Int} (h0 : v < 0) (h1 : -9223372036854775808 ≤ v) : printed v = v := by
-  unfold printed toInt64 u64; omega
+/-- on a value of the type, `valueof` prints that value (signed: int64 round trip; unsigned: the pattern) -/
+theorem printed_of_has (k : Kind) (h64 : k.bits ≤ 64) (v : Int) (h : k.has v = true) : printed k v = v := by
+  unfold Kind.has Kind.lo Kind.hi at h
+  simp only [Bool.and_eq_true, decide_eq_true_eq] at h
+  have hp := pow_le_63 h64
+  have hq := pow_le_64 h64
+  unfold printed
+  generalize (2 : Int) ^ (k.bits - 1) = P at *
+  generalize (2 : Int) ^ k.bits = M at *
+  cases hs : k.signed
+  · simp only [hs, Bool.false_eq_true, ↓reduceIte] at h ⊢
+    unfold u64; omega
+  · simp only [hs, ↓reduceIte] at h ⊢
+    unfold toInt64 u64; omega
 
-theorem printed_big {v : Int} (h0 : 9223372036854775808 ≤ v) (h1 : v < 18446744073709551616) :
-    printed v = v - 18446744073709551616 := by
-  unfold printed toInt64 u64; omega
+theorem skey_of_has (k : Kind) (h64 : k.bits ≤ 64) (c : Const) (h : k.has c.val = true) : skey k c = c.val :=
+  printed_of_has k h64 c.val h
 
-theorem valuesSmall_iff {decl : List Const} :
-    valuesSmall decl = true ↔ ∀ c ∈ decl, 0 ≤ c.val ∧ c.val < 9223372036854775808 := by
-  simp [valuesSmall, List.all_eq_true]
-
-theorem sortC_eq_specSorted {l : List Const} (h : valuesSmall l = true) : sortC l = specSorted l := by
+theorem sortC_eq_specSorted (k : Kind) (h64 : k.bits ≤ 64) {l : List Const} (h : valuesInKind k l = true) :
+    sortC k l = specSorted l := by
   unfold sortC specSorted
   apply sortBy_congr
   intro a ha b hb
-  have := valuesSmall_iff.mp h
-  simp only [ukey, u64_small (this a ha).1 (this a ha).2, u64_small (this b hb).1 (this b hb).2]
+  have := List.all_eq_true.mp h
+  rw [skey_of_has k h64 a (this a ha), skey_of_has k h64 b (this b hb)]
 
 /-! ## association lists over the constant table -/
 
@@ -239,30 +257,32 @@ theorem find?_some_iff_mem {β : Type} [DecidableEq β] (f : Const → β) (l : 
 structure WFfacts (i : Input) : Prop where
   grammar : ∀ b ∈ i.blocks, ∀ s ∈ b, specGrammar i.T s
   bits : 0 < i.kind.bits
+  bits64 : i.kind.bits ≤ 64
   nonempty : i.decl ≠ []
   ndVals : (i.decl.map (·.val)).Nodup
   ndNames : (i.decl.map (fun c => trim i.T c.name)).Nodup
   named : ∀ c ∈ i.decl, trim i.T c.name ≠ []
-  small : ∀ c ∈ i.decl, 0 ≤ c.val ∧ c.val < 9223372036854775808
+  inKind : ∀ c ∈ i.decl, i.kind.has c.val = true
 
 theorem WF.facts {i : Input} (h : WF i = true) : WFfacts i := by
   simp only [WF, Bool.and_eq_true, nodupOK, decide_eq_true_eq, Bool.not_eq_true', List.all_eq_true,
     List.isEmpty_eq_false_iff] at h
   obtain ⟨⟨⟨hg, hne⟩, ⟨hv, hn⟩, hnm⟩, hs⟩ := h
-  refine ⟨grammar_of_grammarOK hg, bits_of_grammarOK hg, hne, hv, hn, ?_, valuesSmall_iff.mp hs⟩
+  refine ⟨grammar_of_grammarOK hg, (bits_of_grammarOK hg).1, (bits_of_grammarOK hg).2, hne, hv, hn, ?_,
+    List.all_eq_true.mp hs⟩
   intro c hc
   have := hnm c hc
   intro he
   simp [he] at this
 
 /-- the table the emitted file holds, for any input -/
-def tables (i : Input) : List Const := sortC (collect i.T i.blocks)
+def tables (i : Input) : List Const := sortC i.kind (collect i.T i.blocks)
 
 theorem tables_eq {i : Input} (h : WF i = true) : tables i = specSorted i.decl := by
   have f := WF.facts h
   unfold tables
   rw [collect_eq_declared i.T i.blocks f.grammar]
-  exact sortC_eq_specSorted (valuesSmall_iff.mpr f.small)
+  exact sortC_eq_specSorted i.kind f.bits64 (List.all_eq_true.mpr f.inKind)
 
 theorem tables_perm {i : Input} (h : WF i = true) : (tables i).Perm i.decl := by
   rw [tables_eq h]; exact sortBy_perm _ _
